@@ -483,7 +483,7 @@ def run(ctx):
     import os
     import traceback
     only = os.environ.get("C02_ONLY", "")
-    for modname in ("props.c02_odt", "props.c02_rtf", "props.c02_pptx", "props.c02_odfx", "props.c02_odp", "props.c02_misc"):
+    for modname in ("props.c02_odt", "props.c02_rtf", "props.c02_pptx", "props.c02_odfx", "props.c02_odp", "props.c02_misc", "props.c02_pptxtext"):
         if only and modname.split("_")[-1] not in only.split(","):
             continue
         try:
@@ -711,8 +711,8 @@ META = {
                   "Not modelled, stated: XML decoding of parts (ElementTree/expat; sampled over 6 encodings incl. rels/content-types/"
                   "manifest parts, compared with the character-reference reading); PPTX speaker notes: the extractor never opens "
                   "ppt/notesSlides/* (module docstring), so there is no code to model - notes slides are generated and the oracle "
-                  "asserts their text is in no unit and not in get_full_text(); PPTX paragraph text (a:p/a:r/a:br) and the ODP "
-                  "title/body/other grouping by style name: end-to-end oracle only; the RTF regex pre-pass is transcribed as "
+                  "asserts their text is in no unit and not in get_full_text(); PPTX paragraph text is modelled and proved (C02/PropsPptxText.v); the ODP "
+                  "title/body/other assembly is modelled (C02/OdpGroup.v: each paragraph once; source order only _partial); the RTF regex pre-pass is transcribed as "
                   "brace matchers (fail-closed inventory of _DEST_PATTERNS + two correspondences) but proved only for sources in "
                   "which no pattern matches, otherwise `pre_ok d` is checked per generated document; PDF/DOC/PPT/MSG/EML bodies: "
                   "third-party text extraction. XLSX: the sheet trimming over ragged rows is modelled and proved (C02/PropsXlsx.v), "
